@@ -424,6 +424,41 @@ Spans of submodels differ:
         if submodels is None:
             submodels = list(self.__dict__['submodels'].keys())
 
+        # Optionally copy initial values from another period (as in
+        # `BaseModel.solve_t()`), for the linker and the submodels to solve
+        if offset:
+            t_check = t
+            if t_check < 0:
+                t_check += len(self.span)
+
+            # Error if `offset` points prior to the current linker span
+            if t_check + offset < 0:
+                raise IndexError(
+                    f'`offset` argument ({offset}) for position `t` ({t}) '
+                    f'implies a period before the span of the current linker instance: '
+                    f'{offset} + {t} -> position {offset + t_check} < 0'
+                )
+
+            # Error if `offset` points beyond the current linker span
+            if t_check + offset >= len(self.span):
+                raise IndexError(
+                    f'`offset` argument ({offset}) for position `t` ({t}) '
+                    f'implies a period beyond the span of the current linker instance: '
+                    f'{offset} + {t} -> position {offset + t_check} >= {len(self.span)} periods in span'
+                )
+
+            for name in self.endogenous:
+                self.__dict__['_' + name][t] = self.__dict__['_' + name][t + offset]
+
+            for name in submodels:
+                try:
+                    submodel = self.__dict__['submodels'][name]
+                except KeyError as e:
+                    raise KeyError(f"'{name}' not found in list of submodels") from e
+
+                for variable in submodel.endogenous:
+                    submodel[variable][t] = submodel[variable][t + offset]
+
         def get_check_values() -> Dict[Hashable, np.ndarray]:
             """Return NumPy arrays of variable values for the current period, for checking."""
             check_values = {
